@@ -45,7 +45,7 @@ PROPS = {
     ),
     "C14": dict(
         suite="erc20",
-        modules=["CantoVerif.Props.C14", "CantoVerif.Props.C14Monitors"],
+        modules=["CantoVerif.Props.C14", "CantoVerif.Props.C14Monitors", "CantoVerif.Props.AbiErc20"],
         theorems=[
             "CV.Erc20.msg_gate", "CV.Erc20.conv_ok_gate", "CV.Erc20.receiver_blocked_rejected", "CV.Erc20.module_receiver_rejected", "CV.Erc20.switches_stored",
             "CV.Erc20.third_party_send_disabled_rejected", "CV.Erc20.self_conversion_ignores_send_switch",
@@ -56,6 +56,8 @@ PROPS = {
             "CV.Erc20.C14M.c14_moduleReceiver_monitor", "CV.Erc20.C14M.c14_moduleReceiver_needs_wiring", "CV.Erc20.C14M.c14_switchesStored_monitor",
             "CV.Erc20.C14M.msg_gate_monitors_all", "CV.Erc20.C14M.c14_ordinaryTransfers_monitor", "CV.Erc20.C14M.c14_hookGate_monitor",
             "CV.Erc20.C14M.c14_hookGate_monitor_tx", "CV.Erc20.C14M.c14_monitors_k", "CV.Erc20.C14M.c14_monitors_tx",
+            # Props/AbiErc20.lean: which Transfer data "does not unpack" in the hook, exactly (shorter than one word), under the ABI model
+            "CV.Abi.transfer_malformed_iff", "CV.Abi.transfer_decodes", "CV.Abi.transfer_trailing_ignored", "CV.Abi.transfer_roundtrip",
         ],
         comps={"outcome", "resp", "reg", "nonce", "meta", "params", "evm", "token", "bank", "send", "abi"},
         assumptions=_ASSUME,
